@@ -2,7 +2,7 @@
 table."""
 import ast
 
-from sa.helpers import (mkflow, spec, code, one, calls, bind_call, param_env,
+from sa.helpers import (validated, unlicensed, mkflow, spec, code, one, calls, bind_call, param_env,
                         fmt, atom_of, unparse, walk_no_nested)
 from sa.index import AnalysisError, ClassInfo
 from sa.algebra import RF, Slice, dotted
@@ -349,7 +349,8 @@ else:
         adds = calls(fl, 'add_temperature')
         sorts = [e for e in calls(fl, 'sortTempSigma') if e.loops]
         ok = bool(adds) and bool(sorts) and all(fl.events.index(sorts[-1]) > fl.events.index(a_) for a_ in adds) and \
-            all(not [g_ for g_ in s_.guards if not g_.early] for s_ in sorts)
+            all(not [g_ for g_ in s_.guards if not (validated(g_) or all(
+                any(x.node is g_.node and x.positive == g_.positive for x in a_.guards) for a_ in adds))] for s_ in sorts)
         R.check('6.hitran.resort', 'PERM', site, 'the list is re-sorted after every added temperature (inside the loop)',
                 ok, key='resort', detail='no re-sort after add_temperature inside the loop', loc=f.loc())
     site = H + '::HitranCIA.load_hitran_file'
